@@ -166,6 +166,7 @@ type PKISpec struct {
 	QeSerial       []byte
 	RootCRLDP      []string
 	SameSigner     bool // QE identity signed by the same certificate as TCB info
+	QeSameKey      bool // QE identity signer is a second certificate (own serial) for the TCB signer's key: same subject key identifier
 	RootKeyLabel   string
 	RootSKI        []byte // subject key identifier copied onto the root (look-alike of another root)
 	RootRawSubject []byte
@@ -222,7 +223,11 @@ func NewPKI(spec PKISpec) *PKI {
 	if spec.SameSigner {
 		p.QeSig = p.TcbSig
 	} else {
-		p.QeSig = MakeCert(CertSpec{CN: CNTcbSigner, KeyLabel: spec.Seed + "/qesig", Serial: serialOr(spec.QeSerial, spec.Seed+"/qesig"), NotBefore: qw.NotBefore, NotAfter: qw.NotAfter, CRLDP: spec.RootCRLDP}, p.Root)
+		ql := spec.Seed + "/qesig"
+		if spec.QeSameKey {
+			ql = spec.Seed + "/tcb"
+		}
+		p.QeSig = MakeCert(CertSpec{CN: CNTcbSigner, KeyLabel: ql, Serial: serialOr(spec.QeSerial, spec.Seed+"/qesig"), NotBefore: qw.NotBefore, NotAfter: qw.NotAfter, CRLDP: spec.RootCRLDP}, p.Root)
 	}
 	return p
 }
